@@ -53,10 +53,19 @@ class _SubprocessThread(Thread):
         self.stderr_result = None
         self.returncode = None
         self._exception = None
+        self._finished = False
 
     @property
     def exception(self):
         return self._exception
+
+    def has_finished(self):
+        """
+        Whether the process ended and its output was read.
+        After a join() that was interrupted, for instance by Ctrl-C,
+        is_alive() may report a thread that is still running as stopped.
+        """
+        return self._finished
 
     def run(self):
         try:
@@ -78,6 +87,8 @@ class _SubprocessThread(Thread):
             self.returncode = proc.returncode
         except Exception as err:  # pylint: disable=broad-except
             self._exception = err
+        finally:
+            self._finished = True
 
     def get_pid(self):
         self._started_cv.acquire()
@@ -140,7 +151,7 @@ def run(args, env, cwd=None, shell=False, kill_tree=True, timeout=-1,
     except KeyboardInterrupt:
         was_interrupted = True
 
-    if (timeout != -1 or was_interrupted) and thread.is_alive():
+    if (timeout != -1 or was_interrupted) and not thread.has_finished():
         assert thread.get_pid() is not None
         result = kill_process(thread.get_pid(), kill_tree, thread,
                               deliver_kill_signal if uses_sudo else None)
